@@ -1,5 +1,5 @@
 SPECIFICATION TSpec
 CONSTRAINT HW
-INVARIANTS CapSafe
+INVARIANTS ATypeOK
 POSTCONDITION Accepted
 CHECK_DEADLOCK FALSE
